@@ -15,8 +15,11 @@ import re
 from .. import core, reports, shell
 
 TEX = 'This is ä \\textbf{testx}.\nSecond $x$ line\\footnote{Foot text}.\n\nLast\n'
+# second source: the text ends where the file ends (positions behind the last character are critical there)
+TEX2 = 'A ä b.\nLast \\textbf{line}'
 MODES = ['plain', 'json', 'xml', 'xml-b', 'html', 'server']
 _plain = None
+_plain2 = None
 
 
 def plain_text():
@@ -26,6 +29,15 @@ def plain_text():
         o = impl.run_filter(TEX, {'pack': '*', 'lang': 'en-GB', 'char': True})
         _plain = o.result[0]
     return _plain
+
+
+def plain_text2():
+    global _plain2
+    if _plain2 is None:
+        from .. import impl
+        o = impl.run_filter(TEX2 + '\n', {'pack': '*', 'lang': 'en-GB', 'char': True})
+        _plain2 = o.result[0]
+    return _plain2
 
 
 def base_answer():
@@ -70,7 +82,7 @@ def delp(obj, path):
 
 
 TYPES = [5, 'str', [], {}, None, True, 1.5, -3, [1], {'value': 1}]
-NUMS = lambda n: [-1, 0, 1, n - 1, n, n + 1, n + 2, 10 ** 9, -10 ** 9]       # noqa: E731
+NUMS = lambda n: [-1, 0, 1, n - 1, n, n + 1, n + 2, 10 ** 6, -10 ** 6]       # noqa: E731
 STRINGS = ['', '< > & " \'', 'line\nbreak', 'tab\there', 'x' * 10000, 'lone \ud800 surrogate', '\u202e\u0000', '%s {0} \\n']
 _paths = None
 
@@ -112,6 +124,9 @@ def answer_bytes(case):
         return RAW[case[1]]
     if kind == 'pair':
         t = plain_text() + '\n\n'
+        return shell.lt_answer([shell.lt_match(t, case[1], case[2], message='m')])
+    if kind == 'end':
+        t = plain_text2() + '\n\n'
         return shell.lt_answer([shell.lt_match(t, case[1], case[2], message='m')])
     if kind == 'pair2':
         t = plain_text() + '\n\n'
@@ -211,11 +226,15 @@ class C15:
             f.write(TEX)
         self.dir = d
         self.sess = shell.Session(['--language', 'en-GB', 'f.tex'], lambda t, c: b'', cwd=d)
+        with open(os.path.join(d, 'g.tex'), 'w', encoding='utf-8') as f:
+            f.write(TEX2)
+        self.sess2 = shell.Session(['--language', 'en-GB', 'g.tex'], lambda t, c: b'', cwd=d)
         plain_text()
+        plain_text2()
         all_paths()
 
     def bounds(self, tier):
-        return {'source': TEX, 'field_paths': len(all_paths()), 'type_values': [repr(t) for t in TYPES], 'numeric_values': 'len-relative: -1 0 1 n-1 n n+1 n+2 1e9 -1e9',
+        return {'source': TEX, 'field_paths': len(all_paths()), 'type_values': [repr(t) for t in TYPES], 'numeric_values': 'len-relative: -1 0 1 n-1 n n+1 n+2 1e6 -1e6 (1e9 in a context length makes the text report a gigabyte of carets: not judged)',
                 'strings': [repr(s)[:30] for s in STRINGS], 'raw_answers': len(RAW), 'modes': MODES,
                 'deviations': 1 if tier == 'quick' else 2, 'in_range_pairs': 'all (offset, length) on the submitted text incl. its delimiter'}
 
@@ -246,6 +265,10 @@ class C15:
         for o in range(N):
             for l in range(0, N - o + 1):
                 yield ['pair', o, l]
+        N2 = len(plain_text2()) + 2
+        for o in range(N2):
+            for l in list(range(0, N2 - o + 1)) + [N2 + 5, 1000]:
+                yield ['end', o, l]
         for o in (0, 3, N - 3):
             for l in (0, 2):
                 for o2 in range(0, N, 3):
@@ -257,11 +280,11 @@ class C15:
             for f, g in itertools.combinations(first, 2):
                 yield ['faults', [f, g]]
 
-    def run_mode(self, mode, ans):
-        s = self.sess
+    def run_mode(self, mode, ans, second=False):
+        s = self.sess2 if second else self.sess
         s.answer = lambda t, c: ans
         if mode == 'server':
-            val, err, code, exc = s.request({'language': ['en-GB'], 'text': [TEX]})
+            val, err, code, exc = s.request({'language': ['en-GB'], 'text': [TEX2 + '\n' if second else TEX]})
             if val is not None:
                 try:
                     json.dumps(val).encode('ascii')
@@ -284,8 +307,9 @@ class C15:
         viol = []
         outs = []
         what = self.what(case)
+        second = case[0] == 'end'
         for mode in MODES:
-            out, err, code, exc = self.run_mode(mode, ans)
+            out, err, code, exc = self.run_mode(mode, ans, second)
             det = {'answer': ans[:1500].decode('utf-8', 'replace'), 'mode': mode, 'stderr': err[-400:], 'fault': what}
             if exc:
                 viol.append({'clause': 'never an unhandled Python exception', 'sig': 'C15:traceback:%s:%s' % (exc.split(' ')[0].rstrip(':'), self.field(case)),
@@ -298,13 +322,13 @@ class C15:
                     viol.append({'clause': 'stops with its own one-line diagnostic and exit status 1', 'sig': 'C15:exit:%s:%s' % (code, mode),
                                  'detail': det})
                 continue
-            tex = TEX
+            tex = TEX2 + '\n' if second else TEX
             p = judge_output(mode, out, tex)
             outs.append('report')
             if p:
                 viol.append({'clause': 'every location in the report lies inside the LaTeX file', 'sig': 'C15:outside:%s:%s' % (mode, case[0]),
                              'detail': dict(det, problem=p, report=(out if isinstance(out, str) else json.dumps(out))[:800])})
-        nt = case[0] != 'pair' or case[2] == 0 or case[1] == 0 or case[1] + case[2] >= len(plain_text())
+        nt = case[0] not in ('pair',) or case[2] == 0 or case[1] == 0 or case[1] + case[2] >= len(plain_text())
         return {'viol': viol[:3], 'out': outs, 'nt': nt, 'tr': 1}
 
     def what(self, case):
@@ -322,31 +346,26 @@ class C15:
         """conformance with the real CLI: one case per outcome class and every k-th"""
         seed = ctx['seed']
         self.init_worker()
-        seen = set()
         picks = []
-        k = 389 + seed % 31
+        perkind = {}
+        k = 97 + seed % 31
         for i, case in enumerate(self.cases('quick', seed)):
-            ans = answer_bytes(case)
-            if ans is None:
-                continue
-            cls = []
-            for mode in ('plain', 'html'):
-                out, err, code, exc = self.run_mode(mode, ans)
-                cls.append('exc' if exc else 'exit%s' % code if code is not None else 'report')
-            key = (case[0], tuple(cls))
-            if key not in seen or i % k == seed % k:
-                seen.add(key)
-                picks.append(case)
-            if len(picks) >= 40:
-                break
+            kind = case[0] + (':' + case[1][0][0] if case[0] == 'faults' and case[1] else '')
+            if perkind.get(kind, 0) < 3 or i % k == seed % k:
+                perkind[kind] = perkind.get(kind, 0) + 1
+                if answer_bytes(case) is not None:
+                    picks.append(case)
+        picks = picks[:45]
         viol = []
         n = 0
         d = os.path.join(core.scratch_dir(), 'cli15')
         for case in picks:
             ans = answer_bytes(case)
+            second = case[0] == 'end'
             for mode in ('plain', 'html', 'json'):
-                out, err, code, exc = self.run_mode(mode, ans)
-                rc, cout, cerr, args = shell.run_cli(['--language', 'en-GB', '--output', mode, 'f.tex'], {'f.tex': TEX}, {}, ans, d)
+                out, err, code, exc = self.run_mode(mode, ans, second)
+                rc, cout, cerr, args = shell.run_cli(['--language', 'en-GB', '--output', mode, 'g.tex' if second else 'f.tex'],
+                                                     {'f.tex': TEX, 'g.tex': TEX2}, {}, ans, d)
                 n += 1
                 if exc:
                     same = 'Traceback' in cerr and rc == 1
